@@ -402,6 +402,9 @@ type GenOpts struct {
 	Decorate bool
 	Ties     bool
 	MaxLines int
+	// RoutingOnlyIn: one in so many derived pairs gets a target without
+	// interface definitions (0 = 10).
+	RoutingOnlyIn int
 }
 
 var (
@@ -971,7 +974,11 @@ func GenPair(t *rapid.T, o GenOpts) *Pair {
 	for i := 0; i < n; i++ {
 		p.Ops = append(p.Ops, p.A.mutate(t, fmt.Sprintf("op%d", i)))
 	}
-	if p.Mode == "derived" && rapid.IntRange(0, 9).Draw(t, "routingOnly") == 0 {
+	roIn := o.RoutingOnlyIn
+	if roIn == 0 {
+		roIn = 10
+	}
+	if p.Mode == "derived" && rapid.IntRange(0, roIn-1).Draw(t, "routingOnly") == 0 {
 		// The device was fully managed once; the target now is one of a
 		// router with managed=routing_only: routes, no interface
 		// definitions, no ACLs, no crypto.
